@@ -3,6 +3,7 @@ package main
 // C20 — keys and passwords never leak into diagnostics, errors, logs or encodings.
 
 import (
+	"go/constant"
 	"fmt"
 	"go/types"
 	"strings"
@@ -73,6 +74,8 @@ func buildTaintCfg(w *World, c *Check) *taintCfg {
 
 func runC20(w *World, c *Check) {
 	c.Rule("C20.flow", "no value derived from a key, password or secret-bearing file buffer reaches an error, log, print or HTTP-error sink; no aggregate containing a key field is formatted", 2)
+	c.Rule("C20.basic", "HTTP basic credentials are split at the first colon: user name and domain derive from the part before it only (the part after it is the password and goes nowhere else)", 2)
+	ruleBasicSplit(w, c, "C20.basic")
 	c.Rule("C20.encoders", "no json/gob encoder call can reach a key or password field through the argument's type", 7)
 	c.Rule("C20.wire", "no clear-text ASN.1 encoding includes an untagged helper field (decrypted parts)", 20)
 
@@ -122,4 +125,136 @@ func runC20(w *World, c *Check) {
 	}
 
 	ruleWireAudit(w, c, "C20.wire")
+}
+
+// ruleBasicSplit: in service.parseBasicHeaderValue the decoded header value "user:password" carries
+// the password. The only way to a password-free value is the part before the first colon
+// (SplitN(v, ":", 2)[0] or the first result of Cut(v, ":")). The domain and user name results —
+// which end up in the realm of the AS-REQ, in Credentials, in error texts and log lines — must derive
+// from that part alone on every return.
+func ruleBasicSplit(w *World, c *Check, rule string) {
+	fk := "service.parseBasicHeaderValue"
+	fn := w.Func(fk)
+	if fn == nil {
+		c.Missing(rule, fk)
+		return
+	}
+	fa := NewFuncAn(w, fn)
+	isColon := func(v ssa.Value) bool {
+		k, ok := v.(*ssa.Const)
+		return ok && k.Value != nil && k.Value.Kind() == constant.String && constant.StringVal(k.Value) == ":"
+	}
+	memo := map[ssa.Value]int{} // 0 unknown/in progress, 1 clean, 2 secret
+	var secret func(v ssa.Value, depth int) bool
+	// colonSplit: v is SplitN/Split/Cut(x, ":") of a secret-bearing x
+	colonSplit := func(v ssa.Value, depth int) bool {
+		call, ok := v.(*ssa.Call)
+		if !ok {
+			return false
+		}
+		f := call.Call.StaticCallee()
+		if f == nil {
+			return false
+		}
+		switch calleeName(f) {
+		case "strings.SplitN", "strings.Split", "strings.Cut":
+			return len(call.Call.Args) >= 2 && isColon(call.Call.Args[1]) && secret(call.Call.Args[0], depth+1)
+		}
+		return false
+	}
+	secret = func(v ssa.Value, depth int) bool {
+		if depth > 40 {
+			return true
+		}
+		if m, ok := memo[v]; ok {
+			return m == 2
+		}
+		memo[v] = 1 // optimistic for cycles (φ webs); fixed below
+		res := false
+		switch x := v.(type) {
+		case *ssa.Parameter:
+			res = true
+		case *ssa.Const:
+			res = false
+		case *ssa.Convert:
+			res = secret(x.X, depth+1)
+		case *ssa.ChangeType:
+			res = secret(x.X, depth+1)
+		case *ssa.Slice:
+			res = secret(x.X, depth+1)
+		case *ssa.Phi:
+			for _, e := range x.Edges {
+				if secret(e, depth+1) {
+					res = true
+				}
+			}
+		case *ssa.Extract:
+			if colonSplit(x.Tuple, depth) {
+				res = x.Index == 1 // Cut: before, after, found
+			} else {
+				res = secret(x.Tuple, depth+1)
+			}
+		case *ssa.UnOp:
+			if ia, ok := x.X.(*ssa.IndexAddr); ok {
+				if colonSplit(ia.X, depth) {
+					k, isC := constInt(ia.Index)
+					res = !(isC && k == 0)
+				} else {
+					res = secret(ia.X, depth+1)
+				}
+			} else {
+				res = secret(x.X, depth+1)
+			}
+		case *ssa.Call:
+			if colonSplit(x, depth) {
+				res = true // the split as a whole still holds the password part
+			} else {
+				for _, a := range x.Call.Args {
+					if secret(a, depth+1) {
+						res = true
+					}
+				}
+			}
+		case *ssa.BinOp:
+			res = secret(x.X, depth+1) || secret(x.Y, depth+1)
+		case *ssa.Alloc:
+			if x.Referrers() != nil {
+				for _, ref := range *x.Referrers() {
+					if st, ok := ref.(*ssa.Store); ok && st.Addr == x && secret(st.Val, depth+1) {
+						res = true
+					}
+				}
+			}
+		case *ssa.IndexAddr:
+			res = secret(x.X, depth+1)
+		default:
+			res = false
+		}
+		if res {
+			memo[v] = 2
+		} else {
+			memo[v] = 1
+		}
+		return res
+	}
+	names := []string{"domain", "username"}
+	bad := map[int]string{}
+	nret := 0
+	for _, x := range fa.Exits() {
+		rs := RetResults(x.Ret)
+		if len(rs) < 3 {
+			continue
+		}
+		nret++
+		for i := 0; i < 2; i++ {
+			// two passes: the optimistic default for φ cycles is re-checked once everything is classified
+			memo = map[ssa.Value]int{}
+			if secret(rs[i], 0) {
+				bad[i] = fa.R.R(rs[i]) + " at " + w.Pos(InstrPos(x.Ret))
+			}
+		}
+	}
+	for i, n := range names {
+		c.Decide(nret > 0 && bad[i] == "", rule, fk, n+"-from-user-part", w.Pos(fn.Pos()), "the "+n+" returned derives only from the part of the decoded value before the first colon", "it can hold what follows the colon (the password): "+trunc(bad[i], 200))
+	}
 }
